@@ -30,9 +30,13 @@ pub enum Script {
     NeverStarted,
     /// start, stop, drop (no tasks)
     StartStopDrop,
+    /// start, execute first half, wait, stop, start again, execute second half, wait, barrier round, stop, drop
+    RestartStopDrop,
+    /// the same, ending with drop without the second stop
+    RestartDrop,
 }
 
-pub const SCRIPTS: [Script; 6] = [Script::WaitStopDrop, Script::StopEarlyDrop, Script::DropWithoutStop, Script::DropEarlyWithoutStop, Script::NeverStarted, Script::StartStopDrop];
+pub const SCRIPTS: [Script; 8] = [Script::WaitStopDrop, Script::StopEarlyDrop, Script::DropWithoutStop, Script::DropEarlyWithoutStop, Script::NeverStarted, Script::StartStopDrop, Script::RestartStopDrop, Script::RestartDrop];
 
 #[derive(Clone, Debug)]
 pub struct Scenario {
@@ -155,11 +159,24 @@ pub fn run(sc: &Scenario, env: &'static dyn Env, log: Arc<Log>, returned: Arc<At
         }
         _ => {
             pool.start();
-            for (id, k) in sc.tasks.iter().enumerate() {
+            let restart = matches!(sc.script, Script::RestartStopDrop | Script::RestartDrop);
+            let first_half = if restart { ntasks / 2 } else { ntasks };
+            for (id, k) in sc.tasks.iter().enumerate().take(first_half) {
                 pool.execute(make_task(log.clone(), id, *k, env));
                 out.submitted += 1;
             }
-            let waits = matches!(sc.script, Script::WaitStopDrop | Script::DropWithoutStop);
+            if restart {
+                if !wait_done(&log, first_half, env) {
+                    out.gave_up = Some("tasks of the first run did not all execute".into());
+                }
+                pool.stop();
+                pool.start();
+                for (id, k) in sc.tasks.iter().enumerate().skip(first_half) {
+                    pool.execute(make_task(log.clone(), id, *k, env));
+                    out.submitted += 1;
+                }
+            }
+            let waits = matches!(sc.script, Script::WaitStopDrop | Script::DropWithoutStop | Script::RestartStopDrop | Script::RestartDrop);
             if waits {
                 if !wait_done(&log, ntasks, env) {
                     out.gave_up = Some("tasks did not all run before the barrier round".into());
@@ -186,7 +203,7 @@ pub fn run(sc: &Scenario, env: &'static dyn Env, log: Arc<Log>, returned: Arc<At
                 }
             }
             match sc.script {
-                Script::WaitStopDrop | Script::StopEarlyDrop => {
+                Script::WaitStopDrop | Script::StopEarlyDrop | Script::RestartStopDrop => {
                     pool.stop();
                     drop(pool);
                 }
